@@ -208,6 +208,7 @@ class C07(core.Property):
         for via in ("feature", "command"):
             for kind in KINDS:
                 srv(target=[via, kind], outcome=["ret"])
+                srv(target=[via, kind], outcome=["unser"])
                 for r in rows:
                     for v in range(chk.n(4, 12)):
                         srv(target=[via, kind], outcome=rpc_outcome(r, v % 4))
@@ -351,6 +352,8 @@ class C07(core.Property):
         o = c["outcome"]
         if o[0] == "ret":
             oc = "0"
+        elif o[0] == "unser":
+            oc = "3"
         elif o[0] == "rpc":
             oc = "1 " + self._enc_exc(o[1], o[2], o[3], o[4])
         else:
@@ -773,6 +776,8 @@ class Env:
     def make_raiser(self, o):
         if o[0] == "ret":
             return lambda: {"done": True}
+        if o[0] == "unser":        # json.dumps cannot serialise it (no __dict__, not attrs, not an enum)
+            return lambda: {"value": {1, 2}}
         if o[0] == "rpc":
             cls = self.cls(o[1])
             msg = None if o[2] is None else "".join(map(chr, o[2]))
@@ -929,3 +934,15 @@ def _regenerate(self, chk):
 
 
 C07.regenerate = _regenerate
+
+
+# ---------------------------------------------------------------------------------------------
+# Link between the two models of the server-side error mapping (coq/Proofs/LinkExceptionsEndpoint.v):
+# every reply of Model/Endpoint.v's state machine (any configuration, any event list) carries the code
+# Model/Exceptions.v's server_reply assigns to the request frame with that id (via C08's reply_is_allowed).
+_LINK_MOD = "Proofs.LinkExceptionsEndpoint"
+C07.obligations = list(C07.obligations) + [_LINK_MOD + "::" + n for n in (
+    "natural_is_mapping", "cancelled_is_mapping", "cancel_bit_ignored", "link_reply_code", "link_error_code",
+    "link_error_code_cases", "link_result_only_where_mapping_says", "link_nonvacuous",
+    "link_disagrees_wide_code")]
+C07.coq_targets = list(C07.coq_targets) + ["Proofs/LinkExceptionsEndpoint.vo"]
